@@ -20,7 +20,7 @@
 (* which bits are the checksum, what is rejected, which bytes are hashed - *)
 (* is decided here.                                                        *)
 (***************************************************************************)
-EXTENDS Bytes
+EXTENDS Bytes, FiniteSets
 
 EntLens    == {16, 20, 24, 28, 32}            \* bytes of entropy
 WordCounts == {12, 15, 18, 21, 24}
@@ -92,6 +92,41 @@ ListDigest == [ english             |-> "2f5eed53a4727b4bf8880d8f3f199efc90e5850
                 portuguese          |-> "2685e9c194c82ae67e10ba59d9ea5345a23dc093e92276fc5361f6667d79cd3f",
                 dutch               |-> "c2019fa4d23ee907c2a7bc30949f42aaa4b59714b464a67c5ed97f5505386567" ]
 Languages == DOMAIN ListDigest
+
+(* ---------- static facts of the lists (words = code point sequences in NFKD, as BIP39 publishes them) ---------- *)
+\* code points a list word may consist of: a-z, combining accents (what NFKD leaves of the Latin diacritics), hiragana
+\* incl. the combining (semi-)voiced marks, CJK unified ideographs.  No space, no control / format character (a byte
+\* order mark U+FEFF, a carriage return), no upper case, no digit.
+WordCp(c) == c \in 97..122 \/ c \in 768..879 \/ c \in 12353..12438 \/ c \in {12441, 12442} \/ c \in 19968..40959
+\* first / last word of every list and whether the list is in code point order (english, italian, portuguese: sorted
+\* as the BIP says; dutch - not a BIP39 list - as bundled; french / spanish / japanese follow their own collation)
+ListFacts == [ english             |-> [first |-> <<97,98,97,110,100,111,110>>, last |-> <<122,111,111>>, sorted |-> TRUE],     \* abandon .. zoo
+               spanish             |-> [first |-> <<97,769,98,97,99,111>>, last |-> <<122,117,114,100,111>>, sorted |-> FALSE], \* a'baco .. zurdo
+               french              |-> [first |-> <<97,98,97,105,115,115,101,114>>, last |-> <<122,111,111,108,111,103,105,101>>, sorted |-> FALSE], \* abaisser .. zoologie
+               italian             |-> [first |-> <<97,98,97,99,111>>, last |-> <<122,117,112,112,97>>, sorted |-> TRUE],       \* abaco .. zuppa
+               portuguese          |-> [first |-> <<97,98,97,99,97,116,101>>, last |-> <<122,117,109,98,105,100,111>>, sorted |-> TRUE], \* abacate .. zumbido
+               japanese            |-> [first |-> <<12354,12356,12371,12367,12375,12435>>, last |-> <<12431,12428,12427>>, sorted |-> FALSE], \* aikokushin .. wareru
+               chinese_simplified  |-> [first |-> <<30340>>, last |-> <<27463>>, sorted |-> FALSE],                             \* de .. xie
+               chinese_traditional |-> [first |-> <<30340>>, last |-> <<27463>>, sorted |-> FALSE],
+               dutch               |-> [first |-> <<97,97,110,98,111,100>>, last |-> <<122,119,105,106,103,101,110>>, sorted |-> TRUE] ] \* aanbod .. zwijgen
+\* strict lexicographic order of code point sequences
+SeqLess(a, b) == \E k \in 1..(Len(a) + 1) :
+                    /\ \A j \in 1..(k - 1) : j <= Len(b) /\ a[j] = b[j]
+                    /\ k <= Len(b)
+                    /\ (k = Len(a) + 1 \/ a[k] < b[k])
+\* what a list of `lang` must satisfy; returns the name of the first fact that fails ("" = all hold)
+\* (english additionally: 3..8 letters and the first four letters identify the word, as the BIP says)
+Prefix4(w) == SubSeq(w, 1, IF Len(w) < 4 THEN Len(w) ELSE 4)
+ListDefect(lang, ws) ==
+    IF Len(ws) # ListSize THEN "not-2048-words"
+    ELSE IF \E i \in 1..Len(ws) : ws[i] = <<>> \/ \E j \in 1..Len(ws[i]) : ~WordCp(ws[i][j]) THEN "word-with-a-character-that-is-no-letter"
+    ELSE IF ws[1] # ListFacts[lang].first THEN "first-word"
+    ELSE IF ws[ListSize] # ListFacts[lang].last THEN "last-word"
+    ELSE IF ListFacts[lang].sorted /\ \E i \in 1..(ListSize - 1) : ~SeqLess(ws[i], ws[i + 1]) THEN "not-sorted"
+    ELSE IF Cardinality({ws[i] : i \in 1..ListSize}) # ListSize THEN "duplicate-word"
+    ELSE IF lang = "english" /\ (\E i \in 1..ListSize : Len(ws[i]) \notin 3..8) THEN "english-word-length"
+    ELSE IF lang = "english" /\ Cardinality({Prefix4(ws[i]) : i \in 1..ListSize}) # ListSize THEN "english-4-letter-prefix-not-unique"
+    ELSE ""
 
 (* ---------- Trezor reference vectors (python-mnemonic vectors.json, english) -------------------------------- *)
 W8a == <<"legal", "winner", "thank", "year", "wave", "sausage", "worth", "useful">>
